@@ -741,12 +741,12 @@ class BroadcastJoin(Merge, PartitionsFiltered):
             bcast_name = self.left._name
             bcast_size = self.left.npartitions
             other = self.right._name
-            other_on = self.right_on
+            other_on, other_index = self.right_on, self.right_index
         else:
             bcast_name = self.right._name
             bcast_size = self.right.npartitions
             other = self.left._name
-            other_on = self.left_on
+            other_on, other_index = self.left_on, self.left_index
 
         split_name = "split-" + self._name
         inter_name = "inter-" + self._name
@@ -768,6 +768,7 @@ class BroadcastJoin(Merge, PartitionsFiltered):
                     (other, part_out),
                     other_on,
                     bcast_size,
+                    bool(other_index),
                 )
 
             _concat_list = []
@@ -801,8 +802,8 @@ class BroadcastJoin(Merge, PartitionsFiltered):
         return dsk
 
 
-def _split_partition(df, on, nsplits):
-    """Split a partition by the hash of its keys
+def _split_partition(df, on, nsplits, on_index=False):
+    """Split a partition by the hash of its keys (of its index with ``on_index``)
 
     The pieces have to line up with the partitions of the broadcast side, which
     ``RearrangeByColumn`` shuffled: hash the same values, i.e. cast categoricals
@@ -810,7 +811,11 @@ def _split_partition(df, on, nsplits):
     _split_partition`` only casts plain numeric columns and would hash the
     integer categories instead).
     """
-    keys = _select_columns_or_index(df, on)
+    if on_index:
+        # joined on its index: ``on`` is None
+        keys = df.index.to_frame(index=False)
+    else:
+        keys = _select_columns_or_index(df, on)
     dtypes = {
         col: np.float64
         for col, dtype in keys.dtypes.items()
